@@ -151,7 +151,8 @@ AssignMissing(nm, semi) ==
    /\ Put(<< Tk(nm, "req"), Tk(S("="), "opt") >> \o (IF semi THEN << Tk(S(";"), "opt") >> ELSE <<>>))
    /\ AddItem(N("item", nm, << N("emptyAt", Dec(Len(toks) + 2), <<>>) >>))      \* index of the '=' token
    /\ nst' = nst + 1 /\ UNCHANGED <<phase, lay>>
-Vary == ~varied /\ varied' = TRUE /\ Profile # "missing"    \* (the missing-value profile keeps everything else canonical)        \* this statement is the one spelled from the full tables
+Vary == IF Profile = "random" THEN varied' = varied            \* random walks (TLC -simulate): any statement may use the full tables
+        ELSE ~varied /\ varied' = TRUE /\ Profile # "missing"    \* (the missing-value profile keeps everything else canonical)        \* this statement is the one spelled from the full tables
 Same == UNCHANGED varied
 CanonName == IF nst % 2 = 0 THEN S("b") ELSE S("c")
 EndOf(cls) == IF cls = "PVLGroup" THEN S("END_GROUP") ELSE S("END_OBJECT")
